@@ -247,6 +247,15 @@ class AbsInt:
                 return out
             if isinstance(e.func, ast.Attribute) and e.func.attr == "item" and not e.args:
                 return self.lin_alts(st, e.func.value)
+            # x.size(k) is x.shape[k]; len(x) is x.shape[0] for an array of known rank
+            if isinstance(e.func, ast.Attribute) and e.func.attr == "size" and len(e.args) == 1 and not e.keywords \
+                    and isinstance(e.func.value, ast.Name) and isinstance(const_value(e.args[0]), int):
+                a = Lin.atom(self.shape_atom(st, e.func.value.id, const_value(e.args[0])))
+                return [(a, [ge(a, 0)])]
+            if isinstance(e.func, ast.Name) and e.func.id == "len" and len(e.args) == 1 and isinstance(e.args[0], ast.Name) \
+                    and st.rank.get(e.args[0].id) is not None:
+                a = Lin.atom(self.shape_atom(st, e.args[0].id, 0))
+                return [(a, [ge(a, 0)])]
             return [(Lin.atom(self.canon(st, e)), [])]
         if isinstance(e, ast.Subscript):
             # X.shape[k]
